@@ -10,9 +10,10 @@ import json_common as J
 from common import Case
 
 TITLE = 'JSON game logs are schema-valid and read back exactly as written'
-LEAN_TARGETS = ['BridgeVerif.Props.C12', 'BridgeVerif.Translated.JsonWriter', 'BridgeVerif.Translated.JsonParser']
-AUDIT_PROPS = ['C12', 'Translated.JsonWriter', 'Translated.JsonParser']
-REQUIRED = ['Translated.JsonWriter.jw_log_document_translated', 'Translated.JsonWriter.jw_log_write_translated', 'Translated.JsonWriter.jw_convert_deal_translated_val', 'Translated.JsonParser.jp_parse_board_logs_translated_same', 'Translated.JsonParser.jp_parse_board_logs_translated_general', 'Translated.JsonParser.jp_parse_rejects_bad_json',
+LEAN_TARGETS = ['BridgeVerif.Props.C12', 'BridgeVerif.Translated.JsonWriter', 'BridgeVerif.Translated.JsonParser', 'BridgeVerif.Translated.JsonRoundTrip']
+AUDIT_PROPS = ['C12', 'Translated.JsonWriter', 'Translated.JsonParser', 'Translated.JsonRoundTrip']
+REQUIRED = ['Translated.JsonRoundTrip.jr_log_round_trip_translated', 'Translated.JsonRoundTrip.jr_log_as_settings_translated',
+            'Translated.JsonWriter.jw_log_document_translated', 'Translated.JsonWriter.jw_log_write_translated', 'Translated.JsonWriter.jw_convert_deal_translated_val', 'Translated.JsonParser.jp_parse_board_logs_translated_same', 'Translated.JsonParser.jp_parse_board_logs_translated_general', 'Translated.JsonParser.jp_parse_rejects_bad_json',
             'loads_dumps', 'framed_output_is_json', 'log_validates', 'record_read_back', 'log_read_back',
             'read_back_is_what_was_written', 'log_as_settings']
 KEEP_FIRST = 1
